@@ -69,6 +69,7 @@ type Column struct {
 	Type    string `json:"type"`
 	NotNull bool   `json:"notnull,omitempty"`
 	PK      bool   `json:"pk,omitempty"`
+	AutoInc bool   `json:"autoincrement,omitempty"` // source only: INTEGER PRIMARY KEY AUTOINCREMENT
 }
 
 type Row struct {
@@ -137,6 +138,9 @@ func createSQL(t *Table) string {
 		s := `"` + c.Name + `" ` + c.Type
 		if c.PK {
 			s += " PRIMARY KEY"
+			if c.AutoInc {
+				s += " AUTOINCREMENT"
+			}
 		}
 		if c.NotNull {
 			s += " NOT NULL"
